@@ -105,14 +105,43 @@ def build_foreign(trees, known):
                     if isinstance(n, (ast.Yield, ast.YieldFrom, ast.Await, ast.Global, ast.Nonlocal, ast.Lambda, ast.Try, ast.With)) or (isinstance(n, (ast.FunctionDef, ast.ClassDef)) and n is not m):
                         ok = False
                 import builtins as _b
+                needs = set()
+                toplevel = set(x.name for x in t.body if isinstance(x, (ast.ClassDef, ast.FunctionDef, ast.AsyncFunctionDef)))
                 for n in ast.walk(m):
                     if isinstance(n, ast.Name) and isinstance(n.ctx, ast.Load) and n.id not in local and not hasattr(_b, n.id):
-                        ok = False          # reads a name of its own module: may mean something else where it is inlined
+                        if n.id in toplevel:
+                            needs.add(n.id)      # a class / function of its own module: fine where the caller imports that very name from this module
+                        else:
+                            ok = False          # reads another name of its own module: may mean something else where it is inlined
                     if isinstance(n, ast.Call) and isinstance(n.func, ast.Attribute) and isinstance(n.func.value, ast.Name) and n.func.value.id == a.args[0].arg:
                         ok = False          # calls other methods of its object: keep the call graph simple
+                m._sa_home = (modname, frozenset(needs))
                 if ok and _size(m.body) <= 12:
                     out[m.name] = m
     return {k: v for k, v in out.items() if seen.get(k) == 1}
+
+
+def drop_dead_foreign(trees, logs=()):
+    """A small public method that every caller had inlined is no longer referenced anywhere in the package: it is removed, so
+    that rules about who may write an attribute do not report code that cannot run."""
+    refs = set()
+    for t in trees.values():
+        for n in ast.walk(t):
+            if isinstance(n, ast.Attribute):
+                refs.add(n.attr)
+            elif isinstance(n, ast.Name):
+                refs.add(n.id)
+            elif isinstance(n, ast.Constant) and isinstance(n.value, str) and n.value.isidentifier():
+                refs.add(n.value)
+    for name, fn in list(FOREIGN.items()):
+        if name in refs:
+            continue
+        for t in trees.values():
+            for st in t.body:
+                if isinstance(st, ast.ClassDef) and any(m is fn for m in st.body):
+                    st.body[:] = [m for m in st.body if m is not fn] or [ast.Pass()]
+                    for lg in logs[:1]:
+                        lg.append("dropped fully inlined method %s.%s" % (st.name, name))
 
 
 def build_class_methods(trees):
@@ -2035,7 +2064,8 @@ class Inliner(object):
             nstores = sum(1 for n, _ in _fn_nodes(caller) if isinstance(n, ast.Name) and n.id == r and isinstance(n.ctx, (ast.Store, ast.Del)))
             if (r in cps and nstores == 0 and not (cps and r == cps[0])) or (r not in cps and nstores == 1):
                 h = FOREIGN[f.attr]
-                if self._inlinable_def(h):
+                home, needs = getattr(h, "_sa_home", (None, frozenset()))
+                if self._inlinable_def(h) and (home == self.modname or needs <= self._imported_from(home)):
                     return h, True
             return None
         if isinstance(f, ast.Attribute) and isinstance(f.value, ast.Name) and cls is not None and (cls, f.attr) in cands:
@@ -2048,6 +2078,17 @@ class Inliner(object):
             if cps and not caller_static and f.value.id == cps[0] and not any(isinstance(n, ast.Name) and n.id == cps[0] and isinstance(n.ctx, ast.Store) for n, _ in _fn_nodes(caller)):
                 return h, not static
         return None
+
+    def _imported_from(self, home):
+        """names this module imports, unrenamed, from the package module `home` (`from .hidden_helpers import X`)"""
+        out = set()
+        last = (home or "").split(".")[-1]
+        for st in self.tree.body:
+            if isinstance(st, ast.ImportFrom) and st.module and st.module.split(".")[-1] == last:
+                for a in st.names:
+                    if a.asname in (None, a.name):
+                        out.add(a.name)
+        return out
 
     def _inline_in(self, cls, caller, cands):
         done = False
